@@ -152,6 +152,9 @@ def install():
     if _installed:
         return
     _installed = True
+    import sigpy  # noqa: import sigpy/numba before any numpy entry point is replaced
+    import sigpy.mri  # noqa
+    import sigpy.mri.rf  # noqa
 
     _orig.update(fftn=np.fft.fftn, ifftn=np.fft.ifftn, fft=np.fft.fft, ifft=np.fft.ifft,
                  convolve=_signal.convolve, correlate=_signal.correlate, vdot=np.vdot,
